@@ -290,10 +290,25 @@ rt_cb_write(RegisterArea *a, const RegisterAtom *src, RegisterOffset off, Regist
     return rv;
 }
 
+/* what the validator callback was last asked about, and whether it was ever handed something that cannot be right
+ * (an entry that is not one of this table's callback-constrained registers, a value of another type) */
+static int rt_val_last_idx = -1, rt_val_bad;
+static uint64_t rt_val_last_bits;
+static unsigned rt_val_calls;
+
 static bool
 rt_validator(const RegisterEntry *e, RegisterValue v)
 {
     int kind = (int)(intptr_t)e->user;
+    rt_val_calls++;
+    if (rt_cur) {
+        long idx = e - rt_cur->entries;
+        if (idx < 0 || idx >= rt_cur->d.nregs || rt_cur->d.reg[idx].ck != REGV_TYPE_CALLBACK || (int)v.type != rt_cur->d.reg[idx].type
+            || kind != rt_cur->d.reg[idx].cbkind)
+            rt_val_bad = 1;
+        rt_val_last_idx = (int)idx;
+        rt_val_last_bits = rt_bits((int)v.type, v.value);
+    }
     return rt_cb_pred((int)v.type, kind, v.value) != 0;
 }
 
@@ -456,6 +471,12 @@ rt_compare_storage(struct rt_inst *in, const char *check, const char *key, const
     if (in->cb_out_of_range) {
         vh_fail("callback-out-of-range", key, "%s: an area callback was asked for words outside its area", ctx);
         in->cb_out_of_range = 0;
+        ok = 0;
+    }
+    if (rt_val_bad) {
+        vh_fail("validator-arguments", key, "%s: the validator callback was handed an entry that is not a callback-constrained register of "
+                "this table, or a value of another type (last: entry %d)", ctx, rt_val_last_idx);
+        rt_val_bad = 0;
         ok = 0;
     }
     if (rt_nest_failed) {
